@@ -136,3 +136,403 @@ Proof. intros d nl ls. apply split_lines_g_len. Qed.
 
 Lemma split_lines_ok : forall d nl k, d <> [] -> nl <> [] -> exists ls, split_lines d nl k = Ok ls.
 Proof. intros d nl k. apply split_lines_g_ok. Qed.
+
+(* ------------------------------------------------------------------------------------------------ *)
+(* codecs: which errors, and the newline of a section is never empty                                 *)
+
+(* an error that _read_content's try: blocks turn into DiffXParseError, or the model artefact *)
+Definition err_ok (e : exn) : Prop := caught_as_parse e = true \/ e = EUnmodelled.
+
+Lemma py_encode_err : forall t enc e, py_encode t enc = Err e -> err_ok e.
+Proof.
+  intros t enc e H. unfold py_encode in H. unfold err_ok.
+  destruct (lookup_codec enc); [destruct (c_enc c t)|..]; inversion H; subst; cbn; auto.
+Qed.
+
+Lemma py_decode_err : forall b enc e, py_decode b enc = Err e -> err_ok e.
+Proof.
+  intros b enc e H. unfold py_decode in H. unfold err_ok.
+  destruct (is_nil b); [discriminate|].
+  destruct (lookup_codec enc); [destruct (c_dec c b)|..]; inversion H; subst; cbn; auto.
+Qed.
+
+Lemma get_newline_err : forall le enc e, get_newline_for_type le enc = Err e -> err_ok e.
+Proof.
+  intros le enc e H. unfold get_newline_for_type in H.
+  destruct (assoc_get beq le GenText.newline_formats); [|inversion H; subst; left; reflexivity].
+  destruct (py_encode l (enc_or_ascii enc)) eqn:E; cbn [bind] in H; [discriminate|].
+  inversion H; subst. eapply py_encode_err; eauto.
+Qed.
+
+Definition gn_nonempty (le : bytes) (enc : option bytes) : bool :=
+  match get_newline_for_type le enc with Ok nl => nonempty nl | Err _ => true end.
+
+(* every line-endings name x every spelling of the catalogue (and no encoding): a table fact, by computation *)
+Lemma gn_nonempty_all :
+  forallb (fun le => gn_nonempty le None &&
+                     forallb (fun r => gn_nonempty le (Some (GenCodecs.cr_spelling r))) GenCodecs.rows)
+          (map fst GenText.newline_formats) = true.
+Proof. vm_compute. reflexivity. Qed.
+
+Lemma find_row_in : forall s rows r, find_row s rows = Some r -> In r rows /\ s = GenCodecs.cr_spelling r.
+Proof.
+  intros s rows r. induction rows as [|r0 rows IH]; cbn [find_row]; [discriminate|].
+  destruct (beq s (GenCodecs.cr_spelling r0)) eqn:E.
+  - intros H. inversion H; subst. split; [left; reflexivity|apply beq_true; exact E].
+  - intros H. destruct (IH H). split; [right; assumption|assumption].
+Qed.
+
+Lemma get_newline_nonempty : forall le enc nl, get_newline_for_type le enc = Ok nl -> nl <> [].
+Proof.
+  intros le enc nl H.
+  assert (gn_nonempty le enc = true) as Hok.
+  { pose proof gn_nonempty_all as Hall. rewrite forallb_forall in Hall.
+    destruct (assoc_get beq le GenText.newline_formats) as [t|] eqn:Ele.
+    2:{ unfold get_newline_for_type in H. rewrite Ele in H. discriminate H. }
+    apply assoc_get_in in Ele. apply (in_map fst) in Ele. cbn [fst] in Ele.
+    specialize (Hall le Ele). apply andb_true_iff in Hall. destruct Hall as [Hnone Hrows].
+    destruct enc as [e|]; [|exact Hnone].
+    destruct (find_row e GenCodecs.rows) as [r|] eqn:F.
+    - apply find_row_in in F. destruct F as [Hin ->]. rewrite forallb_forall in Hrows. exact (Hrows r Hin).
+    - unfold get_newline_for_type, enc_or_ascii, py_encode, lookup_codec in H.
+      destruct (assoc_get beq le GenText.newline_formats); [|discriminate].
+      rewrite F in H. discriminate H. }
+  unfold gn_nonempty in Hok. rewrite H in Hok. intros ->. discriminate.
+Qed.
+
+Lemma get_newline_known : forall le enc, In le [GenText.le_unix; GenText.le_dos] ->
+  get_newline_for_type le enc =
+  bind (py_encode (nl_text le) (enc_or_ascii enc)) (fun b => Ok (strip_bom b (Some (enc_or_ascii enc)))).
+Proof.
+  intros le enc H. unfold get_newline_for_type, nl_text.
+  destruct (assoc_get beq le GenText.newline_formats) eqn:E; [reflexivity|].
+  destruct H as [<-|[<-|[]]]; vm_compute in E; discriminate.
+Qed.
+
+Lemma guess_spec : forall data enc,
+  match guess_line_endings_bytes data enc with
+  | Ok p => snd p <> []
+  | Err e => err_ok e
+  end.
+Proof.
+  intros data enc. unfold guess_line_endings_bytes.
+  pose proof (get_newline_known GenText.le_unix enc (or_introl eq_refl)) as Gu.
+  pose proof (get_newline_known GenText.le_dos enc (or_intror (or_introl eq_refl))) as Gd.
+  destruct (py_encode (nl_text GenText.le_unix) (enc_or_ascii enc)) as [u0|e] eqn:Eu; cbn [bind] in *;
+    [|eapply py_encode_err; eauto].
+  destruct (py_encode (nl_text GenText.le_dos) (enc_or_ascii enc)) as [d0|e] eqn:Ed; cbn [bind] in *;
+    [|eapply py_encode_err; eauto].
+  apply get_newline_nonempty in Gu. apply get_newline_nonempty in Gd.
+  destruct (bfind _ data); [destruct (bends _ _)|]; cbn [snd]; assumption.
+Qed.
+
+(* the newline computation of _read_content *)
+Definition nl_res_of (line_endings : option pv) (enc : option bytes) (content : bytes) : res bytes :=
+  if pv_truthy line_endings then
+    match line_endings with
+    | Some (VStr le) => get_newline_for_type le enc
+    | _ => Err EValue
+    end
+  else do p <- guess_line_endings_bytes content enc; Ok (snd p).
+
+Lemma nl_res_spec : forall le enc content,
+  match nl_res_of le enc content with
+  | Ok nl => nl <> []
+  | Err e => err_ok e
+  end.
+Proof.
+  intros le enc content. unfold nl_res_of.
+  destruct (pv_truthy le).
+  - destruct le as [[z|s]|]; try (left; reflexivity).
+    destruct (get_newline_for_type s enc) eqn:E; [eapply get_newline_nonempty|eapply get_newline_err]; eauto.
+  - pose proof (guess_spec content enc) as G.
+    destruct (guess_line_endings_bytes content enc); cbn [bind]; exact G.
+Qed.
+
+(* ------------------------------------------------------------------------------------------------ *)
+(* _read_content                                                                                     *)
+
+Definition pos (st : rstate) : nat := s_pos (st_stream st).
+Definition sdata (st : rstate) : bytes := s_data (st_stream st).
+
+Definition content_post (st : rstate) (r : content_result) : Prop :=
+  match r with
+  | COk p st' =>
+      p <> PNone /\ sdata st' = sdata st /\ (wf_rstate st -> wf_rstate st') /\ pos st <= pos st' /\
+      (st_linenum st <= st_linenum st')%Z /\
+      (st_linenum st' - st_linenum st <= Z.of_nat (pos st' - pos st))%Z
+  | CParse l => l = st_linenum st \/ l = (st_linenum st - 1)%Z
+  | CExc e => e = EUnmodelled
+  end.
+
+Lemma err_ok_dispatch : forall st e,
+  err_ok e -> content_post st (if caught_as_parse e then CParse (st_linenum st) else CExc e).
+Proof.
+  intros st e [H|H].
+  - rewrite H. left; reflexivity.
+  - subst e. cbn. reflexivity.
+Qed.
+
+Lemma read_content_spec : forall st len enc ind le keep,
+  content_post st (read_content st len enc ind le keep).
+Proof.
+  intros st len enc ind le keep. unfold read_content. cbv zeta.
+  match goal with
+  | |- context [sread ?n ?s] =>
+      pose proof (sread_wf n s) as Hwf; pose proof (sread_pos n s) as Hpos;
+      pose proof (sread_data n s) as Hdat; destruct (sread n s) as [content s1]
+  end.
+  cbn [fst snd] in *.
+  destruct content as [|c0 content']; cbn [is_nil]; [right; reflexivity|].
+  set (content := c0 :: content') in *.
+  assert (content <> []) as Hne by discriminate.
+  assert (forall (p : payload) (b : bool) (lines : list bytes),
+            p <> PNone -> List.length lines <= List.length content ->
+            content_post st (if b then COk p {| st_stream := s1;
+                                               st_linenum := (st_linenum st + Z.of_nat (List.length lines))%Z;
+                                               st_fnl := st_fnl st |}
+                             else CParse (st_linenum st))) as Hfin.
+  { intros p b lines Hp Hl. destruct b; [|left; reflexivity].
+    unfold content_post, pos, sdata, wf_rstate. cbn [st_stream st_linenum].
+    rewrite Hpos, Hdat. repeat split; auto; lia. }
+  assert (forall e : option bytes,
+    content_post st
+     (if match ind with None => false | Some (VInt z) => (z <? 0)%Z | Some (VStr _) => true end
+      then CParse (st_linenum st - 1)%Z
+      else match nl_res_of le e content with
+           | Ok newline =>
+               match split_lines content newline true with
+               | Ok lines =>
+                   match e, keep with
+                   | Some e0, false =>
+                       match py_decode (match ind with
+                                        | Some (VInt z) =>
+                                            if (0 <? z)%Z
+                                            then concat (map (strip_spaces (Z.to_nat (Z.min z (Z.of_nat (List.length content))))) lines)
+                                            else content
+                                        | _ => content
+                                        end) e0 with
+                       | Ok t =>
+                           match py_decode newline e0 with
+                           | Ok nlt =>
+                               if suffixb N.eqb nlt t
+                               then COk (PText t) {| st_stream := s1;
+                                                     st_linenum := (st_linenum st + Z.of_nat (List.length lines))%Z;
+                                                     st_fnl := st_fnl st |}
+                               else CParse (st_linenum st)
+                           | Err ex => if caught_as_parse ex then CParse (st_linenum st) else CExc ex
+                           end
+                       | Err ex => if caught_as_parse ex then CParse (st_linenum st) else CExc ex
+                       end
+                   | _, _ =>
+                       if bends newline (match ind with
+                                         | Some (VInt z) =>
+                                             if (0 <? z)%Z
+                                             then concat (map (strip_spaces (Z.to_nat (Z.min z (Z.of_nat (List.length content))))) lines)
+                                             else content
+                                         | _ => content
+                                         end)
+                       then COk (PBytes (match ind with
+                                         | Some (VInt z) =>
+                                             if (0 <? z)%Z
+                                             then concat (map (strip_spaces (Z.to_nat (Z.min z (Z.of_nat (List.length content))))) lines)
+                                             else content
+                                         | _ => content
+                                         end))
+                                {| st_stream := s1;
+                                   st_linenum := (st_linenum st + Z.of_nat (List.length lines))%Z;
+                                   st_fnl := st_fnl st |}
+                       else CParse (st_linenum st)
+                   end
+               | Err e1 => CExc e1
+               end
+           | Err e1 => if caught_as_parse e1 then CParse (st_linenum st) else CExc e1
+           end)) as Hbody.
+  { intros e.
+    destruct (match ind with None => false | Some (VInt z) => (z <? 0)%Z | Some (VStr _) => true end);
+      [right; reflexivity|].
+    pose proof (nl_res_spec le e content) as Hnl.
+    destruct (nl_res_of le e content) as [newline|e1]; [|apply err_ok_dispatch; exact Hnl].
+    destruct (split_lines_ok content newline true Hne Hnl) as [lines Hsl]. rewrite Hsl.
+    pose proof (split_lines_len _ _ _ Hsl) as Hlen.
+    set (content1 := match ind with Some (VInt z) => _ | _ => content end).
+    destruct e as [e0|]; [destruct keep|]; try (apply Hfin; [discriminate|exact Hlen]).
+    destruct (py_decode content1 e0) as [t|ex] eqn:D1; [|apply err_ok_dispatch; eapply py_decode_err; eauto].
+    destruct (py_decode newline e0) as [nlt|ex] eqn:D2; [|apply err_ok_dispatch; eapply py_decode_err; eauto].
+    apply Hfin; [discriminate|exact Hlen]. }
+  destruct enc as [[z|s]|]; [right; reflexivity|exact (Hbody (Some s))|exact (Hbody None)].
+Qed.
+
+(* ------------------------------------------------------------------------------------------------ *)
+(* _read_header: the blank-line loop has enough fuel, never raises, and a header consumes >= 1 byte   *)
+
+Lemma next_nonblank_spec : forall fuel chunk s,
+  0 < chunk -> List.length (remaining s) < fuel ->
+  exists o s', next_nonblank fuel chunk s = Ok (o, s') /\
+    s_data s' = s_data s /\ (wf_stream s -> wf_stream s') /\
+    match o with
+    | Some line => s_pos s + List.length line <= s_pos s' /\ exists l, line = l ++ [lf]
+    | None => s_pos s <= s_pos s'
+    end.
+Proof.
+  induction fuel as [|f IH]; intros chunk s Hc Hf; [lia|].
+  cbn [next_nonblank]. rewrite read_until_abs_correct by assumption. cbn [bind].
+  destruct (read_until_abs s) as [[line eof] s1] eqn:E.
+  destruct (read_until_abs_exact _ _ _ _ E) as (A & B & C & D & W).
+  destruct (read_until_abs_shape _ _ _ _ E) as [Sh _].
+  destruct eof.
+  - exists None, s1. repeat split; auto; lia.
+  - destruct (Sh eq_refl) as [l [Hl _]].
+    destruct (nonempty (strip line)).
+    + exists (Some line), s1. repeat split; auto; [lia|eauto].
+    + assert (List.length (remaining s1) < f) as Hf1.
+      { rewrite D, Hl, !app_length in Hf. cbn [List.length] in Hf. lia. }
+      destruct (IH chunk s1 Hc Hf1) as (o & s' & R & A' & W' & P').
+      exists o, s'. repeat split; auto; [congruence|].
+      destruct o as [line'|]; [destruct P' as [P1 P2]; split; [lia|exact P2]|lia].
+Qed.
+
+Lemma match_name_in : forall names l n tl, match_name names l = Some (n, tl) -> In n names.
+Proof.
+  induction names as [|x names IH]; intros l n tl H; cbn [match_name] in H; [discriminate|].
+  destruct (bstarts _ l); [inversion H; left; reflexivity|right; eauto].
+Qed.
+
+Lemma match_header_re_name : forall h dots name ostr,
+  match_header_re h = Some (dots, name, ostr) -> In name header_names.
+Proof.
+  intros h dots name ostr H. unfold match_header_re in H.
+  destruct h as [|c r]; [discriminate|]. destruct (byte_eqb c "#"); [|discriminate].
+  destruct (take_dots r) as [d rest]. destruct (d <=? 3); [|discriminate].
+  destruct (match_name header_names rest) as [[n tl]|] eqn:Hm; [|discriminate].
+  apply match_name_in in Hm.
+  destruct tl as [|sp o]; [inversion H; subst; exact Hm|].
+  destruct (_ && _); inversion H; subst; exact Hm.
+Qed.
+
+Lemma parse_header_id : forall valid h level name id opts,
+  parse_header valid h = HOk level name id opts ->
+  id = build_id level name /\ In name header_names /\ in_ids id valid = true.
+Proof.
+  intros valid h level name id opts H. unfold parse_header in H.
+  destruct (match_header_re h) as [[[dots nm] ostr]|] eqn:Hm; [|discriminate].
+  apply match_header_re_name in Hm.
+  destruct (in_ids (build_id dots nm) valid) eqn:Hv; cbn [negb] in H; [|discriminate].
+  destruct ostr as [s|].
+  - destruct (parse_pairs h (bsplit comma_space s) []); inversion H; subst; auto.
+  - inversion H; subst; auto.
+Qed.
+
+Definition header_post (valid : list bytes) (st : rstate) (r : header_result) : Prop :=
+  match r with
+  | HdrEof => True
+  | HdrParse l c => l = st_linenum st
+  | HdrExc e => False
+  | HdrOk level name id opts line st1 =>
+      line = st_linenum st /\ st_linenum st1 = (st_linenum st + 1)%Z /\
+      sdata st1 = sdata st /\ (wf_rstate st -> wf_rstate st1) /\ pos st < pos st1 /\
+      id = build_id level name /\ In name header_names /\ in_ids id valid = true
+  end.
+
+Lemma read_header_spec : forall chunk valid st,
+  0 < chunk -> header_post valid st (read_header chunk valid st).
+Proof.
+  intros chunk valid st Hc. unfold read_header.
+  destruct (next_nonblank_spec (S (List.length (remaining (st_stream st)))) chunk (st_stream st) Hc (Nat.lt_succ_diag_r _))
+    as (o & s' & R & A & W & P).
+  rewrite R. destruct o as [header|]; [|exact I].
+  destruct (negb (bends _ header)); [reflexivity|].
+  destruct (parse_header valid _) as [level name id opts|col] eqn:Hp; [|reflexivity].
+  apply parse_header_id in Hp. destruct P as [P1 [l Hl]].
+  unfold header_post, sdata, pos, wf_rstate. cbn [st_stream st_linenum].
+  repeat split; auto; try tauto.
+  rewrite Hl, app_length in P1. cbn [List.length] in P1. lia.
+Qed.
+
+(* ------------------------------------------------------------------------------------------------ *)
+(* The order table: finite facts, by computation                                                     *)
+
+Definition dots (id : bytes) : nat := fst (take_dots id).
+(* nesting depth of the container a section sits in (content) or is (container): what prev_level is after it *)
+Definition depth (id : bytes) : nat := if is_content id then dots id - 1 else dots id.
+
+Definition sec_main := GenSections.sec_main.
+Definition sec_change := GenSections.sec_change.
+Definition sec_file := GenSections.sec_file.
+Definition sec_file_diff := GenSections.sec_file_diff.
+
+(* what must hold of an id that the table allows after k *)
+Definition follows_ok (k id : bytes) : bool :=
+  (match table_get id with Some _ => true | None => false end) &&
+  (if is_content id
+   then (is_preamble id || is_meta id || beq id sec_file_diff)
+        && negb (beq id sec_main || beq id sec_change || beq id sec_file)
+        && Nat.eqb (depth id) (depth k)
+   else (beq id sec_change || beq id sec_file) && negb (beq id sec_main) && Nat.leb (dots id) (depth k + 1)).
+
+Lemma table_ok : forallb (fun kv => forallb (follows_ok (fst kv)) (snd kv)) GenSections.valid_states = true.
+Proof. vm_compute. reflexivity. Qed.
+
+Lemma main_ok :
+  (match table_get sec_main with Some _ => true | None => false end) && negb (is_content sec_main) &&
+  Nat.eqb (dots sec_main) 0 && Nat.eqb (dots sec_change) 1 && Nat.eqb (dots sec_file) 2 &&
+  negb (beq sec_change sec_main) && negb (beq sec_file sec_main) && negb (beq sec_file sec_change) = true.
+Proof. vm_compute. reflexivity. Qed.
+
+Lemma follows : forall k valid id, table_get k = Some valid -> in_ids id valid = true -> follows_ok k id = true.
+Proof.
+  intros k valid id Ht Hin. unfold table_get in Ht. apply assoc_get_in in Ht.
+  pose proof table_ok as T. rewrite forallb_forall in T. specialize (T _ Ht). cbn [fst snd] in T.
+  rewrite forallb_forall in T. apply T. apply mem_beq_in. exact Hin.
+Qed.
+
+Lemma dots_build_id : forall level name, In name header_names -> dots (build_id level name) = level.
+Proof.
+  intros level name Hin. unfold dots, build_id.
+  induction level as [|n IH]; cbn [repeat_b app].
+  - unfold header_names in Hin. cbn [In] in Hin.
+    repeat (destruct Hin as [<-|Hin]; [reflexivity|]). contradiction.
+  - cbn [take_dots]. change (byte_eqb "." ".") with true. cbv iota.
+    destruct (take_dots (repeat_b "." n ++ name)) as [m r]. cbn [fst] in *. congruence.
+Qed.
+
+(* ------------------------------------------------------------------------------------------------ *)
+(* The invariant of the loop of iter_sections: the encoding stack is as deep as the nesting           *)
+
+Inductive Inv : list bytes -> list (option pv) -> nat -> Prop :=
+| Inv_init : forall e, Inv [GenSections.sec_main] [e] 0
+| Inv_run : forall k valid encs prev,
+    table_get k = Some valid -> prev = depth k -> List.length encs = prev + 2 -> Inv valid encs prev.
+
+Lemma id_facts : forall valid encs prev level name id,
+  Inv valid encs prev -> In name header_names -> id = build_id level name -> in_ids id valid = true ->
+  exists nxt, table_get id = Some nxt /\
+   ( (is_content id = true /\ (is_preamble id || is_meta id || beq id sec_file_diff) = true /\
+      beq id sec_main = false /\ beq id sec_change = false /\ beq id sec_file = false /\
+      prev = depth id /\ List.length encs = prev + 2)
+     \/ (is_content id = false /\ beq id sec_main = true /\ level = 0 /\ prev = 0 /\ List.length encs = 1)
+     \/ (is_content id = false /\ beq id sec_main = false /\ (beq id sec_change || beq id sec_file) = true /\
+         level <= prev + 1 /\ List.length encs = prev + 2 /\ level = depth id /\
+         (beq id sec_change = true -> level = 1) /\
+         (beq id sec_change = false -> beq id sec_file = true -> level = 2)) ).
+Proof.
+  intros valid encs prev level name id HI Hname Hid Hin.
+  pose proof (dots_build_id level name Hname) as Hd. rewrite <- Hid in Hd. clear Hid.
+  pose proof main_ok as M. rewrite !andb_true_iff, !negb_true_iff, !Nat.eqb_eq in M.
+  destruct M as [[[[[[[M1 M2] M3] M4] M5] M6] M7] M8].
+  destruct HI as [e|k valid encs prev Hk Hp Hl].
+  - cbn [in_ids mem] in Hin. unfold in_ids in Hin. cbn [mem] in Hin. rewrite orb_false_r in Hin.
+    pose proof (beq_true _ _ Hin) as E. fold sec_main in E. subst id.
+    destruct (table_get sec_main) as [nxt|]; [|discriminate]. exists nxt. split; [reflexivity|].
+    right; left. repeat split; auto. rewrite E in Hd. congruence.
+  - pose proof (follows _ _ _ Hk Hin) as F. unfold follows_ok in F.
+    destruct (table_get id) as [nxt|]; [|discriminate]. exists nxt. split; [reflexivity|].
+    cbn [andb] in F. destruct (is_content id) eqn:C.
+    + left. rewrite !andb_true_iff, negb_true_iff, !orb_false_iff, Nat.eqb_eq in F.
+      destruct F as [[F1 [[F2 F3] F4]] F5]. repeat split; auto. congruence.
+    + right; right. rewrite !andb_true_iff, negb_true_iff, Nat.leb_le in F.
+      destruct F as [[F1 F2] F3]. unfold depth. rewrite C.
+      repeat split; auto; try lia.
+      * intros E. apply beq_true in E. fold sec_change in E. subst id. rewrite E in Hd. congruence.
+      * intros _ E. apply beq_true in E. fold sec_file in E. subst id. rewrite E in Hd. congruence.
+Qed.
